@@ -1,19 +1,24 @@
 """C16 Built-in helper functions and aliases keep their documented pointwise meaning.
 
-The judge is Design_Trace: a helper's column is given the label the statement assigns to it
+Helpers.tla models binary / offset / prop as objects with a training and a prediction step; TLC
+checks the statement's pointwise meaning and the frozen success level on every small case and
+exports each terminal state for replay (S->C).  For the recorded events (C->S) the judge is
+Design_Trace: a helper's column is given the label the statement assigns to it
 (binary(x, s) = indicator of x = s; offset(v) = v; prop = successes, trials; I(e) = e) and TLC
 checks every cell at training time (build events) and on new frames (prediction-time events:
 offset recomputed from the new frame, trials of the new frame, success level frozen); aliases
 are judged as row relations between two builds; invalid arguments must be refused.
 """
 import copy
+import os
 import random
+import shutil
 import warnings
 
 import numpy as np
 import pandas as pd
 
-from fv import common, design, design_trace, gen, rows
+from fv import common, design, design_trace, gen, rows, tlc
 from fv.report import Report
 
 
@@ -234,17 +239,127 @@ def _events(args):
     return out
 
 
+LETTERS = "abcd"
+
+
+def _helper_case(args):
+    """One terminal state of Helpers_MC replayed into /repo: the helper written in a formula, the design
+    built on the training column(s) and then evaluated on the new column."""
+    c, seed, k = args
+    rng = random.Random((seed * 7919 + k) & 0xFFFFFFFF)
+    h = c["h"]
+    n, m = len(c["x"]), len(c["new"])
+    probs = []
+    renderings = ["int", "str"] if h == "binary" else ["int"]
+    for rd in renderings:
+        def val(v):
+            return LETTERS[v] if rd == "str" else v
+
+        def lit(v):
+            return repr(LETTERS[v]) if rd == "str" else str(v)
+
+        train = pd.DataFrame({"y": np.arange(n, dtype=float)})
+        new = pd.DataFrame({"y": np.zeros(m)})
+        if h == "binary":
+            xs = [val(v) for v in c["x"]]
+            store = rng.choice(["plain", "categorical"]) if rd == "str" else rng.choice(["plain", "float"])
+            train["x"] = pd.Categorical(xs) if store == "categorical" else (np.array(xs, dtype=float) if store == "float" else xs)
+            new["x"] = [val(v) for v in c["new"]]
+            fn = rng.choice(["binary", "B"])
+            call = f"{fn}(x)" if c["arg"] == 99 else rng.choice([f"{fn}(x, {lit(c['arg'])})", f"{fn}(x, success={lit(c['arg'])})"])
+            text, part = f"y ~ 0 + {call}", "common"
+        elif h in ("offset_col", "offset_const"):
+            train["x"] = np.array(c["x"], dtype=rng.choice([np.int64, float]))
+            new["x"] = np.array(c["new"], dtype=np.int64)
+            call = "offset(x)" if h == "offset_col" else rng.choice([f"offset({c['arg']})", f"offset({float(c['arg'])})"])
+            text, part = f"y ~ 0 + {call}", "common"
+        else:
+            train["s"] = np.array(c["x"], dtype=np.int64)
+            train["x"] = np.arange(n, dtype=float)
+            new["s"] = np.zeros(m, dtype=np.int64)
+            new["x"] = np.arange(m, dtype=float)
+            alias = rng.choice(["prop", "p", "proportion"])
+            if h == "prop_col":
+                train["n"] = np.array(c["x2"], dtype=np.int64)
+                new["n"] = np.array(c["new"], dtype=np.int64)
+                call = rng.choice([f"{alias}(s, n)", f"{alias}(s, trials=n)"])
+            else:
+                call = rng.choice([f"{alias}(s, {c['arg']})", f"{alias}(s, trials={c['arg']})"])
+            text, part = f"{call} ~ x", "response"
+        base = {"helper": h, "formula": text, "rendering": rd, "train": {k2: [str(v) for v in train[k2]] for k2 in train.columns if k2 != "y"},
+                "new": {k2: [str(v) for v in new[k2]] for k2 in new.columns if k2 != "y"}}
+        st, dm = design.build(text, train)
+        if c["refused"]:
+            if st == "ok":
+                probs.append(({"clause": "helper_accepted_input_it_must_refuse", "helper": h}, base))
+            continue
+        if st != "ok":
+            probs.append(({"clause": "helper_refused_valid_input", "helper": h, "exc": type(dm).__name__}, dict(base, error=str(dm)[:120])))
+            continue
+        mat = dm.common if part == "common" else dm.response
+        got = np.asarray(mat.design_matrix, dtype=float).reshape(n, -1)
+        want = np.array(c["train"], dtype=float).T.reshape(n, -1)
+        if got.shape != want.shape or not np.array_equal(got, want):
+            probs.append(({"clause": "helper_training_column_differs_from_meaning", "helper": h}, dict(base, got=got.tolist(), want=want.tolist())))
+            continue
+        try:
+            with warnings.catch_warnings():
+                warnings.simplefilter("ignore")
+                res = mat.evaluate_new_data(new)
+            gotn = np.asarray(res.design_matrix if hasattr(res, "design_matrix") else res, dtype=float).reshape(m, -1)
+        except Exception as e:  # pylint: disable=broad-except
+            probs.append(({"clause": "helper_fails_on_new_frame", "helper": h, "exc": type(e).__name__}, dict(base, error=str(e)[:120])))
+            continue
+        wantn = np.array(c["pred"], dtype=float).reshape(m, -1)
+        if gotn.shape != wantn.shape or not np.array_equal(gotn, wantn):
+            probs.append(({"clause": "helper_new_frame_column_differs_from_meaning", "helper": h}, dict(base, got=gotn.tolist(), want=wantn.tolist())))
+    return probs
+
+
+def helpers_mc(rep, seed, maxlen, maxnew):
+    """Helpers.tla: every training column / argument / new column of the small scope."""
+    tmp = tlc.scratch_dir("fv_c16_")
+    try:
+        out = os.path.join(tmp, "h.ndjson")
+        cfg = common.write_cfg(os.path.join(tmp, "c.cfg"), constants={"MaxLen": maxlen, "MaxNew": maxnew, "Vals": "{0, 1, 2}", "NewVals": "{0, 1, 2, 3}", "DoExport": True},
+                               invariants=["Meaning", "BinaryPointwise", "NewShape", "Export"], properties=["Frozen"])
+        with open(cfg, "a", encoding="utf-8") as fh:
+            fh.write("CONSTANT None <- NoneDef\n")
+        res = tlc.run_tlc("Helpers_MC", cfg=cfg, env={"FV_OUT": out}, workers=8, heap="4g", timeout=1800, allow_violation=True, coverage=True)
+        rep.add_tlc(f"Helpers_MC maxlen={maxlen} maxnew={maxnew}", res)
+        if res.violated:
+            rep.violation({"clause": "spec_level:" + ",".join(res.violated), "site": "Helpers.tla"}, {"tlc_tail": res.out[-2000:]})
+            return
+        rep.notes["helpers_actions_never_taken"] = [a for a, (d, t) in res.coverage.items() if t == 0]
+        cases = tlc.read_export(out)
+    finally:
+        shutil.rmtree(tmp, ignore_errors=True)
+    results = common.pool_map(_helper_case, [(c, seed, k) for k, c in enumerate(cases)])
+    for c, probs in zip(cases, results):
+        rep.cov["evaluations"] += 1
+        rep.nontrivial_key("H:" + repr((c["h"], c["x"], c["x2"], c["arg"], c["new"])))
+        for sig, case in probs:
+            rep.violation(dict(sig, site="formulae.transforms / Call.eval_new_data", judge="Helpers_MC"), case)
+    rep.count("s2c_helper_cases", len(cases))
+    for c in [x for x in cases if x["h"] == "binary" and not x["refused"]][:1] + [x for x in cases if x["h"] == "prop_col" and not x["refused"]][:1]:
+        rep.sample({"kind": "S->C helper case", **{k: c[k] for k in ("h", "x", "x2", "arg", "new", "train", "pred")}})
+
+
 def main(tier, seed):
     common.use_repo()
     rep = Report("C16", tier, seed)
     rep.rule = (
-        "Random worlds; per event one helper: binary/B with explicit and default success on str and numeric variables (training and "
+        "S->C: Helpers_MC (binary / offset / prop as train-then-predict state machines): every training column of <= 3 rows over 3 values x "
+        "every success / constant / trials argument (incl. omitted and never-occurring) x every new column of <= 2 (thorough 3) rows over 4 values "
+        "(incl. unseen), written in a formula with integer and string renderings and all alias / keyword spellings, compared with the spec's columns. "
+        "C->S: random worlds; per event one helper: binary/B with explicit and default success on str and numeric variables (training and "
         "new frames lacking the success level), offset of a column / call / positive, negative and float constant (training and new frames "
         "with changed values), prop/p/proportion with column, keyword and constant trials (training response and trials of the new frame), "
         "I / {} of arithmetic, alias pairs as row relations, and invalid arguments that must be refused. Every cell judged by Design_Trace "
         "with the label the statement assigns. Non-trivial = distinct events."
     )
     rep.assumptions = ["the meaning of a helper's column is the label assigned in fv/drivers/c16.py from the statement (binary = indicator, offset(v) = v, prop = successes & trials, I(e) = e)"]
+    helpers_mc(rep, seed, 3, 2 if tier == "quick" else 3)
     n = 500 if tier == "quick" else 12000
     results = common.pool_map(_events, [(i, seed) for i in range(n)])
     events, texts = [], {}
